@@ -207,10 +207,11 @@ def replay(data):
 def main(tier):
     ok, bad = glue_ok()
     obs = obligations(tier)
-    if not ok:
-        print("  glue check failed (assets.py uses a directory entry outside matches/join/_cache_path: %s): lookup obligations are not run" % (bad,))
-        obs = [o for o in obs if o["func"] != "lookup"]
     from vlib import core
     extra = core.run_obligations("harness." + PROP, obligations_z3(tier))
+    if not ok:
+        print("  glue check failed (assets.py uses a directory entry outside matches/join/_cache_path: %s): the unit+logic composition is not justified" % (bad,))
+        extra.append((dict(name="glue[assets.py touches entries only through matches/join]", func="glue", bounds="AST check"),
+                      dict(status="inconclusive", reason="directory entry used outside matches/join: %s" % (bad,), paths=0, checks=0, branches=0, solver_s=0.0, wall_s=0.0)))
     return xhprop.main(PROP, tier, FILE, obs, FUNCTIONS, ASSUMPTIONS, OUTSIDE, signature, extra_results=extra,
                        bounds="pattern unit: prefix<=2 + 12 fragments + suffix<=1 + 8 extensions x 6 kinds; lookup: <=3 entries from 13 representatives x 8 specification classes x 6 kinds x {SM,SSC}; pack banner: <=2 inside x 7 beside")
